@@ -59,7 +59,11 @@ def gen_groups(run, n):
     schema = None
     dims_cycle = ["normalization", "extern_enums", "custom_scalars_module", "serde_path", "visibility", "derives"]
     for gi in range(n):
-        if gi % 2 == 0:
+        enum_free = (gi % 6 == 5)
+        if enum_free:
+            # no enum anywhere: the derive lists may then also be spelt as paths (`serde::Serialize`), which must not matter
+            schema = gen_schema(rng, odd_type_names=True, n_enum=0, n_input=0, args=False)
+        elif gi % 2 == 0:
             schema = gen_schema(rng, odd_type_names=True, n_enum=rng.randint(1, 3), n_input=rng.randint(1, 3))
         doc, feats = gen_document(schema, rng, n_ops=rng.choice([1, 1, 2]))
         other = rng.random() < 0.4      # not wire-neutral: held constant inside a group
@@ -81,6 +85,10 @@ def gen_groups(run, n):
                 except RecursionError:
                     continue
                 vecs.append({"id": "%s.a%d" % (op["name"], ai), "kind": "vars", "target": op["name"], "input": asg, "expect": {}})
+        # which schema enum values are proper variants (a symmetric renaming bug hides behind Other(s) in a round trip)
+        for en in schema.of_kind("enum"):
+            for vi, val in enumerate(schema.types[en]["values"]):
+                vecs.append({"id": "ev.%s.%d" % (en, vi), "kind": "enum", "target": "@enum-of:" + en, "input": val, "expect": {}})
         base["vectors"] = vecs
         members = [base]
         all_dims = [[]]
@@ -89,6 +97,10 @@ def gen_groups(run, n):
             vo, dims = variant_options(rng, schema, cid, force_dim=dims_cycle[(gi * 3 + vi) % len(dims_cycle)])
             opts = dict(base_opts)
             opts.update(vo)
+            if enum_free:
+                opts["response_derives"] = ["serde::Serialize, Debug, PartialEq", "Debug,::serde::Serialize,PartialEq", "Debug, PartialEq, serde::Serialize , Clone"][vi - 1]
+                opts["skip_none"] = base_opts["skip_none"]
+                dims = dims + ["derive-paths"]
             c = C.make_case(cid, schema, doc, rng, options=opts, fmt=base["schema_format"], features=feats)
             # identical inputs: same schema text, same document, same vectors
             c["schema_text"], c["schema_ext"] = base["schema_text"], base["schema_ext"]
@@ -103,7 +115,11 @@ def strip(ob):
     """what is compared: decisions and JSON, not error texts (they legitimately name Rust identifiers)"""
     if ob is None:
         return None
+    if "no_such_probe" in ob:
+        return {"absent": True}     # extern enum / unused enum: no generated type to probe under this option set
     out = {"ok": ob.get("ok")}
+    if "debug" in ob:
+        out["is_other"] = str(ob["debug"]).startswith("Other(")
     for k in ("reser", "body"):
         if k in ob:
             out[k] = ob[k]
@@ -154,6 +170,8 @@ def main(run):
             for vec in base["vectors"]:
                 run.count("vectors-compared")
                 a, b = strip(b_obs.get(vec["id"])), strip(o.get(vec["id"]))
+                if vec["kind"] == "enum" and ((a or {}).get("absent") or (b or {}).get("absent")):
+                    continue
                 if a != b:
                     if a and b and a.get("ok") == b.get("ok") and same(a.get("reser"), b.get("reser")) and same(a.get("body"), b.get("body")) and same((a.get("str") or {}).get("reser"), (b.get("str") or {}).get("reser")):
                         continue   # equal up to float formatting / null members
